@@ -119,7 +119,7 @@ def run(ctx):
                 r.ok("%s.%s = %d" % (cls.name, k, v))
 
     # ---------------------------------------------------------------- R2
-    r = ctx.rule("C07-R2", "TABLE", "the rejected flag combinations are exactly the documented contradictions", reference=27)
+    r = ctx.rule("C07-R2", "TABLE", "the rejected flag combinations are exactly the documented contradictions", reference=29)
     tables = {}
     for cls, doc in ((opt, DOC_OPTION), (arg, DOC_ARGUMENT)):
         fns = [c.methods["_validate_flags"] for c in cls.mro if isinstance(c, ClassInfo) and "_validate_flags" in c.methods]
@@ -172,10 +172,21 @@ def run(ctx):
             r.ok("%s.set_default: multi-valued default must be a list" % cls.name)
         else:
             r.fail(sd, sd.node, "%s.set_default list check" % cls.name, "%s.set_default accepts a non-list default for a multi-valued parameter" % cls.name)
-        # the constructor routes a given default through set_default
+        # the constructor routes a given default through set_default - whenever one is given (is not None),
+        # not only when it is truthy
         init = cls.methods["__init__"]
-        if q.method_calls(init, "set_default"):
+        sds = q.method_calls(init, "set_default")
+        if sds:
             r.ok("%s.__init__ routes the default through set_default" % cls.name)
+            icfg = ctx.cfg(init)
+            dparam = "default"
+            truthy = [c for c in icfg.conds() if isinstance(c.ast, ast.Name) and c.ast.id == dparam]
+            isnot = [c for c in icfg.conds() if isinstance(c.ast, ast.Compare) and isinstance(c.ast.left, ast.Name) and c.ast.left.id == dparam and isinstance(c.ast.ops[0], ast.IsNot)]
+            if truthy and not isnot:
+                r.fail(init, truthy[0].ast, "%s.__init__: default tested for truthiness" % cls.name, "%s.__init__ applies set_default only to truthy defaults: a falsy default "
+                       "([], 0, False, '') skips the contradiction check (e.g. a required argument with a default is accepted)" % cls.name)
+            elif isnot:
+                r.ok("%s.__init__: a default counts as given when it is not None" % cls.name)
         else:
             r.fail(init, init.node, "%s.__init__ default" % cls.name, "%s.__init__ stores a default without set_default's checks" % cls.name)
 
@@ -277,7 +288,7 @@ def run(ctx):
                 r.fail(m, m.node, "%s.parse: %s -> %s" % (cls.name, k or "default", table.get(k)), "%s values flagged %s are converted with %s instead of %s" % (cls.name, k or "STRING", table.get(k), fn))
     # ---------------------------------------------------------------- R6
     r = ctx.rule("C07-R6", "SIBLING", "the long-name / alias / argument-name patterns are one pattern, the short-name "
-                 "/ short-alias patterns are one pattern; dash prefixes are stripped before validation", reference=7)
+                 "/ short-alias patterns are one pattern; dash prefixes are stripped before validation", reference=9)
     pats = {}
     for cls in (ao, copt, arg):
         for name, m in cls.methods.items():
@@ -301,6 +312,21 @@ def run(ctx):
             r.ok("%s: same %s pattern as %s" % (site, k, ref[k][0]))
         else:
             r.fail(m, c, "%s pattern %s" % (site, pat), "%s accepts names by %s but %s uses %s: the same name is valid in one place and invalid in the other" % (site, pat, ref[k][0], ref[k][2]))
+    # prefix stripping removes exactly one prefix
+    for strip, prefix in (("_remove_double_dash_prefix", "--"), ("_remove_dash_prefix", "-")):
+        m = ao.methods.get(strip)
+        if m is None:
+            continue
+        bad = [c for c in q.calls(m) if isinstance(c.func, ast.Attribute) and c.func.attr in ("lstrip", "strip") and c.args and isinstance(c.args[0], ast.Constant) and "-" in str(c.args[0].value)]
+        slices = [n for n in walk_no_nested(m.node) if isinstance(n, ast.Subscript) and isinstance(n.slice, ast.Slice) and isinstance(n.slice.lower, ast.Constant)]
+        if bad:
+            r.fail(m, bad[0], norm(bad[0]), "%s strips every leading dash instead of the one '%s' prefix: names with extra dashes are accepted" % (strip, prefix))
+        elif slices and all(s_.slice.lower.value == len(prefix) for s_ in slices):
+            r.ok("%s removes exactly the prefix '%s'" % (strip, prefix))
+        elif any(isinstance(c.func, ast.Attribute) and c.func.attr == "removeprefix" for c in q.calls(m)):
+            r.ok("%s uses removeprefix" % strip)
+        else:
+            r.fail(m, m.node, strip + " slice", "%s does not remove exactly %d character(s) after testing for '%s'" % (strip, len(prefix), prefix))
     init = ao.methods["__init__"]
     cfg = ctx.cfg(init)
     for strip, val in (("_remove_double_dash_prefix", "_validate_long_name"), ("_remove_dash_prefix", "_validate_short_name")):
